@@ -62,6 +62,7 @@ TECHNIQUE = ("reference-model monitor (documented schedule driving twin branches
 
 NRAND = {"quick": 5000, "thorough": 120000}
 NCOMMON = {"quick": 2000, "thorough": 30000}
+NBIG = {"quick": 300, "thorough": 12000}
 NZIP = {"quick": 2000, "thorough": 30000}
 
 KIND_NAME = {"source": "source", "fc": "fill_compute", "fr": "fill_request", "seq": "sequence"}
@@ -525,6 +526,22 @@ def cases(tier, seed):
         if x < 0.3:
             rec["copy"] = "deepcopy" if x < 0.15 else "pickle"
         yield rec
+    # beyond the small sizes: 5..14 branches and / or flows of 17..130 values; bufsizes around
+    # powers of two, around the flow length, and the two defaults
+    for i in range(NBIG[tier]):
+        rng = gen.rng_for(seed, "C03big", i)
+        shape = i % 3
+        nb = (rng.randint(5, 14), rng.randint(1, 4), rng.randint(5, 9))[shape]
+        nf = (rng.randint(3, 12), rng.choice([17, 33, 64, 65, 100, 129, rng.randint(17, 130)]),
+              rng.randint(17, 70))[shape]
+        ctx = rng.random() < 0.4
+        flow = [[rng.randint(-3, 9), {"i": j}] if ctx else rng.randint(-3, 9) for j in range(nf)]
+        bs = sorted(set([1, 2, rng.choice([7, 8, 9]), rng.choice([15, 16, 17]),
+                         rng.choice([31, 32, 33]), rng.choice([63, 64, 65]), nf - 1, nf, nf + 1,
+                         rng.randint(1, nf + 1)]) - {0})
+        yield {"k": "run", "branches": [rand_branch(rng, j, nf) for j in range(nb)],
+               "flow": flow, "copy_buf": rng.choice([1, 1, 0]), "src": "big",
+               "bufsizes": bs + [1000, None]}
     for i in range(NCOMMON[tier]):
         rng = gen.rng_for(seed, "C03common", i)
         flow = gen.rand_flow(rng, 7)
